@@ -48,6 +48,12 @@ type Case struct {
 	// at every step the engine's pending requests must be a sub-multiset of the
 	// reference's, and equality is demanded once the engine has nothing pending.
 	Lenient bool `json:"lenient,omitempty"`
+	// DelaySite/DelayNth/DelayUs: the goroutine making the DelayNth hit of instrumentation site DelaySite
+	// pauses DelayUs microseconds (a deterministic schedule perturbation: that goroutine falls behind the
+	// others at exactly this code position).
+	DelaySite string `json:"delay_site,omitempty"`
+	DelayNth  int    `json:"delay_nth,omitempty"`
+	DelayUs   int    `json:"delay_us,omitempty"`
 	// Defs, when set, is run instead of parsing G (differential runs on a re-parsed model).
 	Defs *schema.Definitions `json:"-"`
 	// OnRound (storm mode) is called right before the answers of a round are released;
@@ -294,6 +300,16 @@ func RunStepwise(prop string, c *Case, env *fw.Env, v *fw.V) *Result {
 	} else {
 		perturb.Off()
 	}
+	if c.DelaySite != "" {
+		fired := perturb.Trigger(c.DelaySite, c.DelayNth, time.Duration(c.DelayUs)*time.Microsecond, func() {})
+		defer func() {
+			if fired() {
+				v.Add("delays-fired", 1)
+				v.AddSig("delay:" + c.DelaySite)
+			}
+			perturb.Trigger("", 0, 0, nil)
+		}()
+	}
 	in, err := drive.New(env.Label, defs, c.opts())
 	if err != nil {
 		v.Violate("new-process-error", "error", "NewProcess failed: %v", err)
@@ -477,6 +493,16 @@ func RunStorm(prop string, c *Case, env *fw.Env, v *fw.V) *Result {
 	}
 	perturb.Configure(c.Hooks, 300)
 	defer perturb.Off()
+	if c.DelaySite != "" {
+		fired := perturb.Trigger(c.DelaySite, c.DelayNth, time.Duration(c.DelayUs)*time.Microsecond, func() {})
+		defer func() {
+			if fired() {
+				v.Add("delays-fired", 1)
+				v.AddSig("delay:" + c.DelaySite)
+			}
+			perturb.Trigger("", 0, 0, nil)
+		}()
+	}
 	in, err := drive.New(env.Label, defs, c.opts())
 	if err != nil {
 		v.Violate("new-process-error", "error", "NewProcess failed: %v", err)
